@@ -1091,9 +1091,13 @@ class unyt_array(np.ndarray):
         else:
             to_units = self.units.get_base_equivalent(unit_system)
             conv, offset = self.units.get_conversion_factor(to_units, self.dtype)
-        ret = self.v * conv
+        # same result type as in_units: float (complex) of the data's own size
+        dsize = max(2, self.dtype.itemsize)
+        new_dtypekind = "c" if self.dtype.kind == "c" else "f"
+        new_dtype = np.dtype(new_dtypekind + str(dsize))
+        ret = np.asarray(self.ndview * conv, dtype=new_dtype)
         if offset:
-            ret = ret - offset
+            np.subtract(ret, offset, ret)
         return type(self)(ret, to_units)
 
     def in_cgs(self):
